@@ -1375,3 +1375,5 @@ class FitBase(FileIOMixin, object):
         _new_par_vals = self._loaded_result_dict.pop("parameter_values", None)
         if _new_par_vals is not None:
             self._fitter.set_all_fit_parameter_values(_new_par_vals)
+            if self._param_model is not None:
+                self._param_model.parameters = _new_par_vals  # as in set_all_parameter_values
